@@ -610,3 +610,15 @@ Proof.
   - exact Es.
   - now apply (ancestry_ok_sound g W shown stream Es).
 Qed.
+
+(** * statements as pinned in Props/C39.v *)
+Lemma order_thm (g : graph) (W : wf g) (shown : list nat) (skip : bool) :
+  map fst (graph_walk g (ancsets g) shown skip) = filter (is_shown shown) (rev (seq 0 (length g))) /\
+  (forall x y, In x shown -> In y shown -> anc g y x -> y <> x -> y < x).
+Proof.
+  split; [apply walk_nodes|]. intros x y _ _ Ha N. apply (sanc_lt g _ _ W). now split.
+Qed.
+
+Lemma checker_sound_thm (g : graph) (W : wf g) (shown : list nat) : forall stream,
+  stream_ok g (ancsets g) shown stream = true -> stream_holds g shown stream.
+Proof. intros stream. now apply stream_ok_sound. Qed.
